@@ -9,10 +9,10 @@ HT = Map(STR, Map(Comp, List(Comp)))       # context_handlers: spec name -> cont
 IGN = "forall(x, Comp, forall(y, Comp, implies(x in old(IGNORE) and y in old(IGNORE)[x], x in IGNORE and y in IGNORE[x])))"
 
 
-def WF(h):
+def WF(h, ig="IGNORE"):
     """every handler of a context except the most recently registered one ignores that context"""
     return ("forall(n, Str, forall(c, Comp, implies(n in {h} and c in {h}[n], forall(i, range(0, len({h}[n][c])), forall(j, range(0, len({h}[n][c])), "
-            "implies(i < j, {h}[n][c][i] in IGNORE and c in IGNORE[{h}[n][c][i]]))))))").format(h=h)
+            "implies(i < j, {h}[n][c][i] in {ig} and c in {ig}[{h}[n][c][i]]))))))").format(h=h, ig=ig)
 
 
 NAME = "uf('attr_Comp___name__', STR, component)"
@@ -46,6 +46,23 @@ POST = [
 ]
 
 
+D = "uf('ctxdeps', Set(Comp), component)"
+NM = "uf('attr_Comp___name__', STR, component)"
+HN = "%s.context_handlers" % TGT
+R0 = "row0(" + H0 + ", " + NM + ", x)"
+# what the call did, stated over the set of contexts the component depends on (the lemma C05-WF derives the representation
+# invariant of the handler table from these facts alone)
+EXIT = [
+    OTHERS_SAME,
+    "implies(len(parents) >= 1, forall(n, Str, implies(n != %s, (n in %s) == (n in %s) and implies(n in %s, %s[n] == %s[n]))))" % (NM, HN, H0, H0, HN, H0),
+    "implies(len(parents) >= 1, forall(x, Comp, implies(x not in %s, (%s in %s and x in %s[%s]) == (%s in %s and x in %s[%s]) and "
+    "   implies(%s in %s and x in %s[%s], %s[%s][x] == %s[%s][x]))))" % (D, NM, HN, HN, NM, NM, H0, H0, NM, NM, HN, HN, NM, HN, NM, H0, NM),
+    "implies(len(parents) >= 1, forall(x, %s, %s in %s and x in %s[%s] and len(%s[%s][x]) == len(%s) + 1 and %s[%s][x][len(%s)] == component and "
+    "   forall(k, range(0, len(%s)), %s[%s][x][k] == %s[k] and %s[k] in IGNORE and x in IGNORE[%s[k]])))"
+    % (D, NM, HN, HN, NM, HN, NM, R0, HN, NM, R0, R0, HN, NM, R0, R0, R0),
+]
+
+
 def declare(reg):
     reg.sort(Comp=Comp, Str=STR, Ref_SC=SC)
     reg.exc_files.append("insights/core/exceptions.py")
@@ -68,7 +85,7 @@ def declare(reg):
                  locals=dict(ctx_handlers=HT, parents=List(SC)),
                  loops={0: OUTER, 1: INNER},
                  raises={},
-                 ensures=[IGN, "forall(p, Ref_SC, %s)" % WF("p.context_handlers")] + POST)
+                 ensures=[IGN] + POST + EXIT)
 
     # ------------------------------------------------------------------ RegistryPoint.__call__: the last implementation that produced a value
     from contracts import dr as DRS
